@@ -72,6 +72,27 @@ def rule_core(ctx):
                 res.violate("%s : non-core-expansion:#%d" % (key, i), "points are added to the search frontier without a `neighbour count >= min_points` test: a non-core (border) point would extend the cluster", fn_loc(fn, e.node["ln"]))
             else:
                 res.violate("%s : core-condition:#%d:%s" % (key, i, verdict), "frontier insertion is conditioned on `count %s min_points`; the definition is `count >= min_points` (at least min_points points, itself included)" % verdict, fn_loc(fn, e.node["ln"]))
+        # seeds are skipped only because they are already labelled or because they are not core points:
+        # a wider skip condition leaves a genuine core point unlabelled
+        seed_q = [x for x in tr.events if x.kind == "call" and x.name == "find_neighbors" and len(x.loops) == 1]
+        for x in tr.events:
+            if x.kind != "continue" or len(x.loops) != 1 or not x.guards:
+                continue
+            g = x.guards[-1]
+            inst = "%s : seed skipped when %s" % (key, g[1][:70])
+            res.instance(inst)
+            gv = g[3]
+            okskip = False
+            if isinstance(gv, Cmp) and seed_q:
+                qk = k(seed_q[0].val)
+                op = gv.relation(lambda a: qk in a, lambda a: "min_points" in a)
+                okskip = (op == "<" and g[0] == "+") or (op == ">=" and g[0] == "-")
+            elif isinstance(gv, Term) and gv.is_call("is_some") and "cluster_memberships" in g[1] or (isinstance(gv, Term) and gv.is_call("is_some") and "index(" in g[1]):
+                okskip = g[0] == "+"
+            if okskip:
+                res.ok()
+            else:
+                res.violate("%s : seed-skip-condition" % key, "a seed is skipped under `%s`, which is neither `already labelled` nor exactly `neighbour count < min_points`: a core point can stay unlabelled" % g[1][:100], fn_loc(fn, x.node["ln"]))
         # cluster id: exactly one increment, in the seed loop, after the expansion loop
         incs = [e for e in tr.events if e.kind == "assignop" and "cluster_id" in e.lhs]
         res.instance("%s : cluster id increments" % key)
@@ -275,5 +296,36 @@ def rule_order(ctx):
     return res.finish(2)
 
 
+def rule_once(ctx):
+    res = RuleResult("R-C08-once", "OPTICS marks a sample as processed in the same step in which it appends it to the ordering")
+    F = ctx.facts()
+    fns = [f for f in cl_fns(F, "optics") if f["d"]["name"] == "transform" and "OpticsAnalysis" in f["output"]]
+    if not fns:
+        res.missing_anchor("<OpticsValidParams as Transformer>::transform")
+    for fn in fns:
+        c = fn["crate"]
+        r = Render(c)
+        key = fn_key(fn)
+        n_push = 0
+        for blk in walk(fn["body"]):
+            if blk.get("k") != "Block":
+                continue
+            stmts = [strip(x) for x in blk["stmts"]] + ([strip(blk["e"])] if blk.get("e") else [])
+            pushes = [x for x in stmts if x.get("k") == "MethodCall" and x["name"] == "push" and "orderings" in r.e(x["recv"])]
+            for pcall in pushes:
+                n_push += 1
+                what = r.e(pcall["args"][0]).replace(".clone()", "")
+                inst = "%s : orderings.push(%s) #%d" % (key, what[:20], n_push)
+                res.instance(inst)
+                ins = [x for x in stmts if x.get("k") == "MethodCall" and x["name"] == "insert" and "processed" in r.e(x["recv"]) and r.e(x["args"][0]).startswith(what.strip("&") + ".index")]
+                if ins:
+                    res.ok()
+                else:
+                    res.violate("%s : listed-without-processed:#%d" % (key, n_push), "`%s` is appended to the ordering without being inserted into `processed` in the same step: a later core point can seed it again and it is listed twice" % what[:30], fn_loc(fn, pcall["ln"]))
+        if n_push < 2:
+            res.missing_anchor("the two orderings.push sites of OPTICS (found %d)" % n_push)
+    return res.finish(2)
+
+
 def rules(tier):
-    return [rule_core, rule_self, rule_index, rule_order]
+    return [rule_core, rule_self, rule_index, rule_order, rule_once]
